@@ -12,6 +12,7 @@ import (
 	"regexp"
 	"sort"
 	"strings"
+	"time"
 
 	coraza "github.com/corazawaf/coraza/v3"
 	"github.com/corazawaf/coraza/v3/debuglog"
@@ -447,6 +448,10 @@ func diff(got, want string) string {
 	return sb.String()
 }
 
+// hangAfter: an execution (one transaction, its Close and the probe on the recycled object: milliseconds) that has not
+// returned after this long is taken for a hang (e.g. a lock left held on a failure path).
+const hangAfter = 90 * time.Second
+
 func run(c *runner.Ctx) {
 	_ = os.Setenv("TMPDIR", filepath.Join(c.Work, "tmp"))
 	d := mkdirs(c.Work)
@@ -478,7 +483,9 @@ func run(c *runner.Ctx) {
 		scen.Close(wref)
 		d = mkdirs(c.Work)
 		// 1. fault free, full run: the operation list
+		stopWatch := c.Watch("fault-free", kase{Base: bi, Name: b.Name, Stop: -1}, hangAfter)
 		free := execute(b, d, -1, nil, true)
+		stopWatch()
 		judge(b, kase{Base: bi, Name: b.Name, Stop: -1}, free, ref, func(sig, text string) { c.Violation(sig, text, kase{Base: bi, Name: b.Name, Stop: -1}) })
 		c.Count("evaluations", 1)
 		c.Note("base %q: %d file-system operations fault free", b.Name, len(free.ops))
@@ -488,7 +495,9 @@ func run(c *runner.Ctx) {
 		// 2. every operation fails in turn (bound = number of simultaneous faults)
 		st := mc.Explore(mc.Options{Bound: bound, MaxExecs: 200000, Stop: c.Expired}, func(cx *mc.Ctx) {
 			d = mkdirs(c.Work)
+			stopWatch := c.Watch("after-injected-fault", func() any { return kase{Base: bi, Name: b.Name, Stop: -1, Choices: cx.Choices()} }, hangAfter)
 			res := execute(b, d, -1, cx, true)
+			stopWatch()
 			k := kase{Base: bi, Name: b.Name, Stop: -1, Choices: cx.Choices()}
 			c.Count("evaluations", 1)
 			judge(b, k, res, ref, func(sig, text string) { c.Violation(sig, text, k) })
@@ -503,8 +512,10 @@ func run(c *runner.Ctx) {
 		// 3. abandonment after each API call
 		for stop := 0; stop <= 9; stop++ {
 			d = mkdirs(c.Work)
-			res := execute(b, d, stop, nil, true)
 			k := kase{Base: bi, Name: b.Name, Stop: stop}
+			stopWatch := c.Watch("abandoned", k, hangAfter)
+			res := execute(b, d, stop, nil, true)
+			stopWatch()
 			c.Count("evaluations", 1)
 			judge(b, k, res, ref, func(sig, text string) { c.Violation(sig, text, k) })
 			c.Distinct(fmt.Sprintf("%d|stop%d", bi, stop))
